@@ -7,6 +7,7 @@
 #include <OpenVolumeMesh/Core/Handles.hh>
 
 #include <cassert>
+#include <limits>
 #include <numeric>
 #include <iostream>
 #include <string>
@@ -121,6 +122,15 @@ void BinaryFileReader::read_topo_chunk(Decoder &reader)
     if (header.valence != 0 && header.valence_encoding != IntEncoding::None) {
         state_ = ReadState::ErrorInvalidFile;
         error_msg_ = "TOPO edge chunk: valence encoding must be None for fixed valences";
+        return;
+    }
+
+    // Stored handles are at most 32 bits wide and the sum "stored handle +
+    // offset" is compared with an entity count: an offset beyond 32 bits can
+    // only designate an entity by wrapping around in 64 bit arithmetic.
+    if (header.handle_offset > std::numeric_limits<uint32_t>::max()) {
+        state_ = ReadState::ErrorHandleRange;
+        error_msg_ = "TOPO chunk: handle offset out of range";
         return;
     }
 
